@@ -710,3 +710,16 @@ M('C03', 'plane-inverted-keeps-d', 'src/geom3/plane3.rs', "        Self::new(-se
 M('C02', 'curve3-lengths-from-zero-index', 'src/geom3/curve3.rs', "            lengths.push(lengths[i] + d);", "            lengths.push(lengths[0] + d);", 'from_points:lengths')
 M('C14', 'neutral-pass-list-for-each', 'src/geom3/mesh/filtering.rs', "                for i in pass_list {\n                    self.indices.insert(i);\n                }", "                pass_list.into_iter().for_each(|i| {\n                    self.indices.insert(i);\n                });", '', kind='neutral')
 M('C14', 'pass-list-for-each-removes', 'src/geom3/mesh/filtering.rs', "                for i in pass_list {\n                    self.indices.insert(i);\n                }", "                pass_list.into_iter().for_each(|i| {\n                    self.indices.remove(&i);\n                });", 'mutate_pass_list')
+# ---------------------------------------------------------------- round-6 obligations
+M('C03', 'station-normal-lerp', 'src/geom2/curve2.rs', "            let n1 = n1.normal();\n            let n = n0.slerp(&n1, self.fraction);", "            let n1 = n1.normal();\n            let n = UnitVec2::new_normalize(n0.into_inner() * (1.0 - self.fraction) + n1.into_inner() * self.fraction);", 'slerp')
+M('C08', 'pp-jacobian-loose-cutoff', 'src/geom3/align3/jacobian.rs', "    if m.norm_squared() < 1e-16 {", "    if m.norm_squared() < 1e-10 {", 'coincident-cutoff')
+M('C10', 'camber-second-half-loose', 'src/airfoil/camber.rs', "    let stations1 = extract_half_camber_line(section, &spanning.reversed(), tol)?;", "    let stations1 = extract_half_camber_line(section, &spanning, tol)?;", 'both-halves')
+M('C10', 'analyze-closed-split-swapped', 'src/airfoil.rs', "                    Some(section.split_closed_at_lengths(l0, l1)?)", "                    Some(section.split_closed_at_lengths(l1, l0)?)", 'perimeter-split')
+M('C14', 'near-check-angle-strict-acos', 'src/geom3/mesh/filtering.rs', "(Some(face_normal), Some(angle_tol)) => face_normal.angle(&rn) <= angle_tol,", "(Some(face_normal), Some(angle_tol)) => face_normal.dot(&rn).clamp(-1.0, 1.0).acos() < angle_tol,", 'angle-criterion')
+M('C17', 'resampled-x-floor', 'src/func1/series1.rs', "        self.resampled_n(n.ceil() as usize)", "        self.resampled_n(n.floor() as usize)", 'resampled_x')
+M('C17', 'bounds-at-y0-no-dedup', 'src/func1/series1.rs', "        let mut x_bounds = [self.y_crossings(0.0), vec![self.x_min(), self.x_max()]].concat();\n        sort_and_dedup(&mut x_bounds);", "        let mut x_bounds = [self.y_crossings(0.0), vec![self.x_min(), self.x_max()]].concat();\n        x_bounds.sort_by(|a, b| a.partial_cmp(b).unwrap());", 'bounds_at_y0')
+M('C16', 'index-of-reversed-comparator', 'src/common/discrete_domain.rs', "self.binary_search_by(|v| v.partial_cmp(&value).unwrap());", "self.binary_search_by(|v| value.partial_cmp(v).unwrap().reverse());", 'index_of:comparator')
+M('C20', 'extend-h-forward-difference', 'src/geom3/mesh/conformal.rs', "        h[(i_all as usize, 0)] = 0.5 * (uvb[(i_b_prev, 0)] - uvb[(i_b_next, 0)]);", "        h[(i_all as usize, 0)] = 0.5 * (uvb[(i_b, 0)] - uvb[(i_b_next, 0)]);", 'central-difference')
+M('C20', 'boundary-lengths-open-end', 'src/geom3/mesh/conformal.rs', "            let next = i_bound[(i + 1) % i_bound.len()];", "            let next = i_bound[(i + 1).min(i_bound.len() - 1)];", 'boundary_edge_lengths')
+M('C13', 'plane-from-point-abs-d', 'src/geom3/plane3.rs', "        Self::new(*normal, d)", "        Self::new(*normal, d.abs())", 'Plane3::from')
+M('C11', 'from3-relative-collinear', 'src/geom2/circle2.rs', "        if det.abs() < 1.0e-6 {", "        if det.abs() < 1.0e-6 * (p0 - p1).norm() {", 'from_3_points')
